@@ -223,6 +223,18 @@ Qed.
 Example i_bits_ex : i_bits 8 (-1) = 18446744073709551615%N.
 Proof. reflexivity. Qed.
 
+(** Compact literal for generated case files: [hexb len 0xAABB..] is the [len]-byte
+    big-endian string of the number (one numeral instead of [len] numerals). *)
+Fixpoint n_bytes_le (fuel : nat) (n : N) : bytes :=
+  match fuel with
+  | O => []
+  | S f => N.land n 255 :: n_bytes_le f (N.shiftr n 8)
+  end.
+Definition hexb (len : nat) (n : N) : bytes := rev (n_bytes_le len n).
+
+Example hexb_ex : hexb 3 0x00ab01 = [0; 171; 1].
+Proof. reflexivity. Qed.
+
 (** Indices of the elements of [cases] on which [ok] is false (correspondence checks). *)
 Fixpoint mismatches_from {A : Type} (ok : A -> bool) (cases : list A) (i : nat) : list nat :=
   match cases with
